@@ -223,8 +223,8 @@ def java_model_step(ctx, rep, build=None):
     if not ok_model: rep['tie_broken'].append('the generated Java model does not compile: ' + xdrv.first_errors(log_model, 4))
     theorems = core.theorems_of(PROPS_FILE, NS) if os.path.exists(PROPS_FILE) else []
     cov['java_theorems'] = len(theorems)
-    twins = [n[len(NS) + 1 + len('java_eq_c_'):] for n in theorems if n.startswith(NS + '.java_eq_c_')]
-    cov['java_methods_with_theorem'] = len(set(twins))
+    twins = sorted({re.sub(r'_(partial|KA)$', '', m.group(2)) for n in theorems for m in [re.match(re.escape(NS) + r'\.java_eq(w?)_c_(\w+)$', n)] if m and not m.group(2).endswith('_full_fails')})
+    cov['java_methods_with_theorem'] = len(twins); cov['java_methods_with_theorem_list'] = twins
     if not ok_props:
         failing = _failing(log_props)
         rep['proof_broken'] += [NS + '.' + f for f in failing] or ['(module %s does not build)' % PROPS]
